@@ -1177,4 +1177,194 @@ theorem simF_call {k : Nat} (hA : FClaimA (k + 1)) (hU : FClaimU (k + 1)) {h : S
     | mark v => exact simF_call_other hrel hseg hl hv (fun _ e => by cases e) (fun _ e => by cases e) (fun _ e => by cases e)
     | sym v => exact simF_call_other hrel hseg hl hv (fun _ e => by cases e) (fun _ e => by cases e) (fun _ e => by cases e)
 
+/-! ## The inductive steps -/
+
+theorem compile_ne_nil_Ff {self : String} {e : Expr} (he : Ff self e = true) {isFn c gs r}
+    (h : (compile isFn c e).run gs = .ok r) (hfn : c.funcname = self ∨ c.funcname = "") : r.1.1 ≠ [] := by
+  obtain ⟨code, t, h1, hne⟩ := compile_total_Ff self e he isFn c gs hfn
+  rw [h1] at h
+  injection h with h
+  subst h
+  exact hne
+
+theorem fclaimB_succ {n : Nat} (hE : FClaimE n) (hB : FClaimB n) : FClaimB (n + 1) := by
+  intro self es hne hes isFn c gs r hc hfn m s rs env pre post hrel hseg
+  match es, hne with
+  | [e], _ =>
+    rw [FfList] at hes
+    simp only [Bool.and_eq_true] at hes
+    rw [compileBegin] at hc
+    rw [Ref.evalBegin]
+    exact hE self e hes.1 isFn c gs r hc hfn m s rs env pre post hrel hseg
+  | e :: e' :: es', _ =>
+    rw [FfList] at hes
+    simp only [Bool.and_eq_true] at hes
+    rw [compileBegin] at hc
+    · simp only [g_bind_ok, g_pure_ok] at hc
+      obtain ⟨ra, gs1, ha, rb, gs2, hb, rfl⟩ := hc
+      have hane : ra.1.isEmpty = false := by
+        simpa [List.isEmpty_eq_false_iff] using compile_ne_nil_Ff hes.1 ha hfn
+      simp only [hane, Bool.false_eq_true, if_false] at hseg ⊢
+      rw [Ref.evalBegin]
+      · have ih := hE self e hes.1 isFn _ gs (ra, gs1) ha hfn m s rs env pre ([.pop] ++ rb.1 ++ post) hrel
+          (hseg.refocus (by simp))
+        cases h1 : Ref.eval n e env rs with
+        | ok v1 rs1 =>
+          rw [h1] at ih
+          obtain ⟨s1, m1, w1, r1, l1, hv1, rel1, hm1, ext1, fr1, hcl1⟩ := ih
+          obtain ⟨r2, m2⟩ := glue_pop hseg l1
+          have ih2 := hB self (e' :: es') (by simp) hes.2 isFn c gs1 (rb, gs2) hb hfn m1 _ rs1 env _ post (rel1.jmp _ _)
+            (hseg.moved m2 (c₁ := ra.1 ++ [.pop]) (c₂ := rb.1) (post' := post) rfl (by simp))
+          exact SimF.seq (r1.trans r2.toX) m2 hm1 ext1 (fr1.trans (FrameF.jmp _ _ _)) ih2 (by lenarith)
+        | err rs1 => rw [h1] at ih; exact SimF.prefix ih (fun _ _ hh => by cases hh)
+        | timeout => trivial
+        | brk l rs1 => rw [h1] at ih; exact ih.elim
+        | cont l rs1 => rw [h1] at ih; exact ih.elim
+      · intro hh; cases hh
+    · intro hh; cases hh
+
+theorem fclaimC_succ {n : Nat} (hE : FClaimE n) (hC : FClaimC n) : FClaimC (n + 1) := by
+  intro self arms d harms hd isFn c gs r gs0 rd hc hcd hfn m s rs env pre post hrel hseg
+  match arms with
+  | [] =>
+    rw [compileArms] at hc; simp only [g_pure_ok] at hc; subst hc
+    rw [Ref.evalCond]
+    simp only [asmCond] at hseg ⊢
+    exact hE self d hd isFn c gs0 rd hcd hfn m s rs env pre post hrel hseg
+  | (p, b) :: arms' =>
+    rw [FfArms] at harms
+    simp only [Bool.and_eq_true] at harms
+    rw [compileArms] at hc
+    simp only [g_bind_ok, g_pure_ok] at hc
+    obtain ⟨rest, gs1, hrest, rp, gs2, hp, rb, gs3, hb, rfl⟩ := hc
+    rw [Ref.evalCond]
+    simp only [asmCond] at hseg ⊢
+    have ih := hE self p harms.1.1 isFn _ gs1 (rp, gs2) hp hfn m s rs env pre _ hrel (hseg.refocus (c' := rp.1)
+      (post' := [.branch false (rb.1.length + 2)] ++ rb.1 ++ [.jump ((asmCond rest rd.1.1).length + 1)]
+        ++ asmCond rest rd.1.1 ++ post) (by simp))
+    cases h1 : Ref.eval n p env rs with
+    | ok v1 rs1 =>
+      rw [h1] at ih
+      obtain ⟨s1, m1, w1, r1, l1, hv1, rel1, hm1, ext1, fr1, hcl1⟩ := ih
+      simp only
+      have htr : truthy v1 = truthy w1 := by rw [hv1]; exact truthy_tr m1 id id w1
+      by_cases ht : truthy w1 = true
+      · rw [htr, if_pos ht]
+        obtain ⟨r2, m2⟩ := glue_brn_fall hseg l1 ht
+        have ih2 := hE self b harms.1.2 isFn c gs2 (rb, gs3) hb hfn m1 _ rs1 env _ _ (rel1.jmp _ _)
+          (hseg.moved m2 (c₁ := rp.1 ++ [.branch false (rb.1.length + 2)]) (c₂ := rb.1)
+            (post' := [.jump ((asmCond rest rd.1.1).length + 1)] ++ asmCond rest rd.1.1 ++ post)
+            (by simp) (by simp))
+        exact SimF.cond_exit hseg (r1.trans r2.toX) m2 hm1 ext1 (fr1.trans (FrameF.jmp _ _ _)) ih2
+      · rw [htr, if_neg ht]
+        obtain ⟨r2, m2⟩ := glue_brn_taken hseg l1 (by simpa using ht)
+        have ih2 := hC self arms' d harms.2 hd isFn c gs (rest, gs1) gs0 rd hrest hcd hfn m1 _ rs1 env _ post (rel1.jmp _ _)
+          (hseg.moved m2 (c₁ := rp.1 ++ [.branch false (rb.1.length + 2)] ++ rb.1
+              ++ [.jump ((asmCond rest rd.1.1).length + 1)]) (c₂ := asmCond rest rd.1.1) (post' := post)
+            (by simp) (by lenarith))
+        exact SimF.seq (r1.trans r2.toX) m2 hm1 ext1 (fr1.trans (FrameF.jmp _ _ _)) ih2 (by lenarith)
+    | err rs1 => rw [h1] at ih; exact SimF.prefix ih (fun _ _ hh => by cases hh)
+    | timeout => trivial
+    | brk l rs1 => rw [h1] at ih; exact ih.elim
+    | cont l rs1 => rw [h1] at ih; exact ih.elim
+
+theorem fclaimE_succ {n : Nat} (hE : FClaimE n) (hB : FClaimB n) (hC : FClaimC n) (hA : FClaimA n) (hU : FClaimU n) :
+    FClaimE (n + 1) := by
+  intro self e he isFn c gs r hc hfn m s rs env pre post hrel hseg
+  cases e with
+  | int x =>
+    rw [compile] at hc; simp only [g_pure_ok] at hc; subst hc
+    rw [Ref.eval]; exact simF_push _ (fun _ _ _ => rfl) hrel hseg
+  | bool x =>
+    rw [compile] at hc; simp only [g_pure_ok] at hc; subst hc
+    rw [Ref.eval]; exact simF_push _ (fun _ _ _ => rfl) hrel hseg
+  | str x =>
+    rw [compile] at hc; simp only [g_pure_ok] at hc; subst hc
+    rw [Ref.eval]; exact simF_push _ (fun _ _ _ => rfl) hrel hseg
+  | nilLit =>
+    rw [compile] at hc; simp only [g_pure_ok] at hc; subst hc
+    rw [Ref.eval]; exact simF_push _ (fun _ _ _ => rfl) hrel hseg
+  | sym x =>
+    rw [compile] at hc; simp only [g_pure_ok] at hc; subst hc
+    exact simF_sym x n (by simpa [Ff] using he) hrel hseg
+  | begin_ es =>
+    rw [Ff] at he
+    cases es with
+    | nil =>
+      rw [compile] at hc; simp only [g_pure_ok] at hc; subst hc
+      rw [Ref.eval]
+      cases n with
+      | zero => rw [Ref.evalBegin]; trivial
+      | succ k =>
+        rw [Ref.evalBegin]
+        · exact simF_push _ (fun _ _ _ => rfl) hrel hseg
+        · omega
+    | cons e0 es0 =>
+      rw [compile] at hc
+      · rw [Ref.eval]
+        exact hB self (e0 :: es0) (by simp) he isFn c gs r hc hfn m s rs env pre post hrel hseg
+      · intro hh; cases hh
+  | def_ x e1 =>
+    rw [Ff] at he
+    simp only [Bool.and_eq_true] at he
+    rw [compile] at hc
+    simp only [g_bind_ok, g_pure_ok] at hc
+    obtain ⟨ra, gs1, ha, rfl⟩ := hc
+    rw [Ref.eval]
+    have ih := hE self e1 he.2 isFn _ gs (ra, gs1) ha hfn m s rs env pre ([.dup, .popStackPutEnv x] ++ post) hrel
+      (hseg.refocus (by simp))
+    cases h1 : Ref.eval n e1 env rs with
+    | ok v rs1 =>
+      rw [h1] at ih
+      obtain ⟨s1, m1, w1, r1, l1, hv1, rel1, hm1, ext1, fr1, hcl1⟩ := ih
+      subst hv1
+      exact simF_def_tail hseg he.1 r1 l1 rel1 hm1 ext1 fr1 hcl1
+    | err rs1 => rw [h1] at ih; exact SimF.prefix ih (fun _ _ hh => by cases hh)
+    | timeout => trivial
+    | brk l rs1 => rw [h1] at ih; exact ih.elim
+    | cont l rs1 => rw [h1] at ih; exact ih.elim
+  | set_ x e1 =>
+    rw [Ff] at he
+    simp only [Bool.and_eq_true] at he
+    rw [compile] at hc
+    simp only [g_bind_ok, g_pure_ok] at hc
+    obtain ⟨ra, gs1, ha, rfl⟩ := hc
+    rw [Ref.eval]
+    have ih := hE self e1 he.2 isFn _ gs (ra, gs1) ha hfn m s rs env pre ([.dup, .update x] ++ post) hrel
+      (hseg.refocus (by simp))
+    cases h1 : Ref.eval n e1 env rs with
+    | ok v rs1 =>
+      rw [h1] at ih
+      obtain ⟨s1, m1, w1, r1, l1, hv1, rel1, hm1, ext1, fr1, hcl1⟩ := ih
+      subst hv1
+      exact simF_set_tail hseg he.1 r1 l1 rel1 hm1 ext1 fr1 hcl1
+    | err rs1 => rw [h1] at ih; exact SimF.prefix ih (fun _ _ hh => by cases hh)
+    | timeout => trivial
+    | brk l rs1 => rw [h1] at ih; exact ih.elim
+    | cont l rs1 => rw [h1] at ih; exact ih.elim
+  | cond arms d =>
+    rw [Ff] at he
+    simp only [Bool.and_eq_true] at he
+    rw [compile] at hc
+    simp only [g_bind_ok, g_pure_ok] at hc
+    obtain ⟨rd, gs1, hd, as, gs2, has, rfl⟩ := hc
+    rw [Ref.eval]
+    exact hC self arms d he.1 he.2 isFn c gs1 (as, gs2) gs (rd, gs1) has hd hfn m s rs env pre post hrel hseg
+  | call f args =>
+    cases f with
+    | sym h =>
+      rw [Ff] at he
+      simp only [Bool.and_eq_true] at he
+      rw [compile] at hc
+      have hne := ff_call_ne hfn he.1.1.1 he.1.1.2
+      simp only [hne, Bool.and_false, Bool.false_eq_true, if_false, g_pure_ok] at hc
+      subst hc
+      cases n with
+      | zero =>
+        rw [Ref.eval, Ref.eval]; trivial
+      | succ k => exact simF_call hA hU he.1.2 he.2 hrel hseg
+    | _ => simp [Ff] at he
+  | and_ _ | or_ _ | let_ _ _ _ | newScope _ | arr _ | for_ _ _ _ _ _ | break_ _ | continue_ _ | fn _ _ _
+  | defn _ _ _ _ | assign _ _ | bad _ => simp [Ff] at he
+
 end ZygoVerif.Sim
